@@ -390,6 +390,50 @@ def rule_absolute(rep, idx):
                             r, aff_str(ins.fields['labelValue'].aff) if isinstance(ins.fields.get('labelValue'), IV) else '?'))
 
 
+def rule_absolute_after_growth(rep, idx, rid='R3g'):
+    rep.rule(rid, 'the alignment of an absolutely referenced label is judged on the final layout: in  k x OPR / BR far / x: / LDAC x / '
+             'block(G) / far:  the branch has to grow by one byte after the first pass, which moves x from byte k+1 to byte k+2; the '
+             'reference must be rejected exactly when k+2 is not a multiple of 4, and otherwise carry the word address (k+2)/4', floor=4)
+    where = pos(idx.func('hexasm::CodeGen::resolveLabels').node) + ' hexasm::CodeGen::resolveLabels'
+    for m in ('LDAC', 'LDAM'):
+        for k in range(4):
+            B = Builder(idx)
+            far, x = B.label('far'), B.label('x')
+            br, ins = B.ref('BR', 'far'), B.ref(m, 'x')
+            prog = [B.opr('ADD') for _ in range(k)] + [br, x, ins, B.pad('G', 20, 200, None, 1, 'input'), far]
+            key = '%s:k=%d' % (m, k)
+            try:
+                B.layout(prog)
+                thrown = None
+            except Thrown as e:
+                thrown = e.what
+            except NeedSplit as e:
+                rep.undecided(rid, key, 'layout not uniform on the gap class: %s' % e, where)
+                continue
+            final = k + 2
+            if thrown is None:
+                sz = B.I.invoke(B.I.resolve_method(br, 'getSize', None), br, [])
+                lv = x.fields['labelValue']
+                if not (isinstance(sz, IV) and sz.concrete() and sz.lo == 2 and isinstance(lv, IV) and lv.concrete() and lv.lo == final):
+                    rep.undecided(rid, key, 'template precondition not met (branch size %r, label at %r): the template no longer exercises growth' % (sz, lv), where)
+                    continue
+            if final % 4 == 0:
+                op = ins.fields.get('labelValue')
+                if thrown is not None:
+                    # over-rejection of a valid program is outside the property (which speaks about accepted programs): recorded, not a verdict
+                    rep.add(rid, key, True, where, 'note: the reference is rejected (%s) although x is word aligned in the final layout -- the '
+                            'alignment test is applied to an intermediate layout' % thrown, nontrivial=False)
+                    rep.note('C05 %s [%s]: valid program rejected (alignment judged before the layout converged)' % (rid, key))
+                    continue
+                ok = isinstance(op, IV) and op.concrete() and op.lo == final // 4
+                rep.add(rid, key, ok, where, 'operand %r, label at byte %d' % (op, final))
+            else:
+                ok = thrown is not None and _is_repo_error(idx, thrown)
+                rep.add(rid, key, ok, where, ('rejected with %s' % thrown) if thrown else
+                        'x ends up at byte %d (not word aligned) after the branch in front of it grew, yet the reference is accepted with the '
+                        'truncated word address %r' % (final, ins.fields.get('labelValue')))
+
+
 def _is_repo_error(idx, t):
     t = t.replace('const ', '').replace('struct ', '').replace('class ', '').strip()
     q = idx._resolve_record_name(t.split('::')[-1], 'hexasm::CodeGen') if t.split('::')[-1] not in ('Error',) else 'hexutil::Error'
@@ -1032,4 +1076,5 @@ def run(rep, tier):
     rule_header(rep, idx)
     rule_relative(rep, idx, tier)
     rule_oversized(rep, idx)
+    rule_absolute_after_growth(rep, idx)
     rule_termination(rep, idx)
